@@ -865,7 +865,49 @@ def _run_many(ctx, n, *, with_model):
         ctx.extra['model_scenarios'] = len(pending)
 
 
+def _rekey_probes(ctx):
+    """An entry removed from the mapping and stored again under another spelling of the same path: "entries removed
+    ... are deleted and new entries created" - the file must exist afterwards with the printed model."""
+    import os, tempfile, shutil
+    from autobean_refactor import editor as editor_lib, printer
+    import io
+    for edit_too in (False, True):
+        for spelling in ('abs', 'dotslash'):
+            tmp = tempfile.mkdtemp(prefix='verif-c16-rekey-')
+            cwd = os.getcwd()
+            try:
+                os.makedirs(os.path.join(tmp, 'sub'))
+                with open(os.path.join(tmp, 'main.bean'), 'wb') as f:
+                    f.write(b'include "sub/inc.bean"\n2000-01-01 open Assets:A\n')
+                with open(os.path.join(tmp, 'sub', 'inc.bean'), 'wb') as f:
+                    f.write(b'2000-01-02 open Assets:B\r\n')
+                os.chdir(tmp)
+                expected = None
+                with editor_lib.Editor().edit_file_recursive('main.bean') as files:
+                    k = next(x for x in files if x.endswith('inc.bean'))
+                    model = files.pop(k)
+                    if edit_too:
+                        model.raw_directives[0].account = 'Assets:Z'
+                    new_key = os.path.abspath(k) if spelling == 'abs' else os.path.join('.', k)
+                    files[new_key] = model
+                    expected = printer.print_model(model, io.StringIO()).getvalue().encode()
+                ctx.case(('rekey', edit_too, spelling))
+                path = os.path.join(tmp, 'sub', 'inc.bean')
+                if not os.path.exists(path):
+                    ctx.oracle_fail('C16:added-not-created:rekey', f'entry re-added under the {spelling} spelling of the same file does not exist after the block',
+                                    {'probe': 'rekey', 'edit_too': edit_too, 'spelling': spelling})
+                elif open(path, 'rb').read() != expected:
+                    ctx.oracle_fail('C16:edited-content:rekey', 'file re-added under another spelling does not contain the printed model',
+                                    {'probe': 'rekey', 'edit_too': edit_too, 'spelling': spelling})
+            except Exception as e:
+                ctx.oracle_fail(f'C16:exception:rekey:{type(e).__name__}', repr(e)[:200], {'probe': 'rekey', 'edit_too': edit_too, 'spelling': spelling})
+            finally:
+                os.chdir(cwd)
+                shutil.rmtree(tmp, ignore_errors=True)
+
+
 def run(ctx):
+    _rekey_probes(ctx)
     _run_many(ctx, ctx.scale(150, 5000), with_model=ctx.extra.get('model_available', True))
 
 
@@ -877,6 +919,11 @@ def replay(ctx, data):
     spec = data.get('replay') or data.get('first_diverging_replay')
     if not spec:
         return False
+    if spec.get('probe') == 'rekey':
+        import check
+        c = check.Ctx('C16', 'quick', ctx.seed)
+        _rekey_probes(c)
+        return not c.oracle_fails
     res = run_scenario(spec, want_line=False)
     _classify_unexpected(spec, res)
     for sig, what in res['fails']:
